@@ -30,21 +30,25 @@ package unifier
 
 //@ func (cb *CircuitBreaker) transitionToOpen
 //@   property C08
+//@   helper
 //@   modifies cb.state, cb.successes, cb.halfOpenRequests
 //@   ensures cb.state == 1 && cb.successes == 0 && cb.halfOpenRequests == 0
 
 //@ func (cb *CircuitBreaker) transitionToHalfOpen
 //@   property C08
+//@   helper
 //@   modifies cb.state, cb.failures, cb.successes, cb.halfOpenRequests
 //@   ensures cb.state == 2 && cb.failures == 0 && cb.successes == 0 && cb.halfOpenRequests == 0
 
 //@ func (cb *CircuitBreaker) transitionToClosed
 //@   property C08
+//@   helper
 //@   modifies cb.state, cb.failures, cb.successes, cb.halfOpenRequests
 //@   ensures cb.state == 0 && cb.failures == 0 && cb.successes == 0 && cb.halfOpenRequests == 0
 
 //@ func (cb *CircuitBreaker) allowHalfOpen
 //@   property C08
+//@   helper
 //@   modifies cb.halfOpenRequests
 //@   atomic-once cb.halfOpenRequests
 //@   requires cb.state == 2
